@@ -504,6 +504,29 @@ func numPrintCheck(r *rand.Rand, n int) (evals int, bads []numBad) {
 	for _, v := range ints {
 		check(fmt.Sprintf("%T", v), v, fmt.Sprint(v))
 	}
+	// every width in every position that has its own opcode or key renderer: map key (sorted and unsorted paths), slice element,
+	// struct field, `,string` field, pointer, interface
+	for _, v := range ints[:18] {
+		rv := reflect.ValueOf(v)
+		t := rv.Type()
+		name := fmt.Sprintf("%T(%v)", v, v)
+		m := reflect.MakeMap(reflect.MapOf(t, reflect.TypeOf(0)))
+		m.SetMapIndex(rv, reflect.ValueOf(1))
+		check("map["+t.String()+"]int key", m.Interface(), name)
+		sl := reflect.MakeSlice(reflect.SliceOf(t), 2, 2)
+		sl.Index(0).Set(rv)
+		sl.Index(1).Set(rv)
+		check("[]"+t.String(), sl.Interface(), name)
+		st := reflect.New(reflect.StructOf([]reflect.StructField{{Name: "A", Type: t}, {Name: "S", Type: t, Tag: `json:",string"`},
+			{Name: "P", Type: reflect.PtrTo(t)}, {Name: "I", Type: reflect.TypeOf((*interface{})(nil)).Elem()}})).Elem()
+		st.Field(0).Set(rv)
+		st.Field(1).Set(rv)
+		p := reflect.New(t)
+		p.Elem().Set(rv)
+		st.Field(2).Set(p)
+		st.Field(3).Set(rv)
+		check("struct{"+t.String()+" fields}", st.Interface(), name)
+	}
 	return
 }
 
